@@ -8,31 +8,6 @@ open StorageModel
 
 /-! ### one fk index, generically -/
 
-/-- `fkIndex.ProcessBeforeDelete` on the back-reference map alone -/
-def idxDel (tgt : Bytes → Bool) (v id : Bytes) (m : Map (List Bytes)) : Except Err (Map (List Bytes)) :=
-  if v ≠ [] then
-    (if tgt v then .ok (m.insert v (setDel id ((m.lookup v).getD []))) else .error .notFound)
-  else .ok m
-
-/-- `fkIndex.ProcessBeforeDelete` on the back-reference map alone (since 001d2d2: a target that is gone is
-    skipped, so this step never fails) -/
-def idxDelB (tgt : Bytes → Bool) (v id : Bytes) (m : Map (List Bytes)) : Map (List Bytes) :=
-  if v ≠ [] then (if tgt v then m.insert v (setDel id ((m.lookup v).getD [])) else m) else m
-
-def idxAdd (nullable : Bool) (tgt : Bytes → Bool) (new id : Bytes) (m1 : Map (List Bytes)) :
-    Except Err (Map (List Bytes)) :=
-  if new ≠ [] then
-    (if tgt new then .ok (m1.insert new (setIns id ((m1.lookup new).getD []))) else .error .notFound)
-  else if nullable then .ok m1 else .error .nullNotAllowed
-
-/-- `fkIndex.ProcessAfterUpdate` on the back-reference map alone -/
-def idxWrite (nullable : Bool) (tgt : Bytes → Bool) (ic : Bool) (old new id : Bytes) (m : Map (List Bytes)) :
-    Except Err (Map (List Bytes)) :=
-  if ¬ ic ∧ old = new then .ok m else
-    match idxDel tgt old id m with
-    | .ok m1 => idxAdd nullable tgt new id m1
-    | .error e => .error e
-
 theorem idxDel_spec {f : EntA → FV} {P : Bytes → Prop} {as : Map EntA} {m m' : Map (List Bytes)}
     {tgt : Bytes → Bool} {v id : Bytes}
     (hS : SetExact f P as m) (hv : ∀ e, as.lookup id = some e → evalVal (f e) = v)
@@ -401,11 +376,53 @@ theorem assemble {σ : Schema} {s0 s' : St} {id : Bytes} {e' : EntA}
     simp only [this, if_false]; exact hI.nonEmpty
   nonEmptyB := by rw [hbs]; exact hI.nonEmptyB
 
+theorem afterUpdateA_mentees {σ : Schema} {ic : Bool} {old : Olds} {id : Bytes} {s s' : St} {c : CA}
+    (h : afterUpdateA σ ic old id s c = .ok s') : s'.mentees1 = s.mentees1 ∧ s'.mentees2 = s.mentees2 := by
+  cases c with
+  | ownerIdx =>
+    rw [ownerIdx_eq] at h
+    cases hr : idxWrite true s.bs.contains ic old.owner (fieldOf s id (·.owner)) id s.things with
+    | ok m => rw [hr] at h; simp only [liftThings] at h; cases h; exact ⟨rfl, rfl⟩
+    | error e => rw [hr] at h; cases h
+  | bossIdx =>
+    rw [bossIdx_eq] at h
+    cases hr : idxWrite false s.as.contains ic old.boss (fieldOf s id (·.boss)) id s.minions with
+    | ok m => rw [hr] at h; simp only [liftMinions] at h; cases h; exact ⟨rfl, rfl⟩
+    | error e => rw [hr] at h; cases h
+  | bossCascade => simp only [afterUpdateA] at h; cases h; exact ⟨rfl, rfl⟩
+  | depFk =>
+    simp only [afterUpdateA] at h
+    split at h
+    · cases h; exact ⟨rfl, rfl⟩
+    · split at h
+      · split at h
+        · cases h; exact ⟨rfl, rfl⟩
+        · cases h
+      · split at h
+        · cases h; exact ⟨rfl, rfl⟩
+        · cases h
+
+theorem processAfterUpdateA_mentees {σ : Schema} {ic : Bool} {old : Olds} {id : Bytes} {s s' : St}
+    (h : processAfterUpdateA σ ic old id s = .ok s') : s'.mentees1 = s.mentees1 ∧ s'.mentees2 = s.mentees2 := by
+  unfold processAfterUpdateA at h
+  generalize orderA σ = l at h
+  induction l generalizing s with
+  | nil => simp only [List.foldlM_nil, pure, Except.pure] at h; cases h; exact ⟨rfl, rfl⟩
+  | cons c rest ih =>
+    simp only [List.foldlM_cons, bind_ok] at h
+    obtain ⟨s1, h1, h2⟩ := h
+    obtain ⟨a, b⟩ := afterUpdateA_mentees h1
+    obtain ⟨a', b'⟩ := ih h2
+    exact ⟨a'.trans a, b'.trans b⟩
+
 theorem processAfterUpdateA_inv {σ : Schema} {s0 s s' : St} {id : Bytes} {ic : Bool} {old : Olds} {e' : EntA}
     (hI : Inv σ s0) (hid : id ≠ []) (hk : OpKind s0.as id ic old)
     (hs : s = { s0 with as := s0.as.insert id e' })
     (h : processAfterUpdateA σ ic old id s = .ok s') :
-    Inv σ s' ∧ s'.as = s0.as.insert id e' ∧ s'.bs = s0.bs := by
+    Inv σ s' ∧ s'.as = s0.as.insert id e' ∧ s'.bs = s0.bs ∧ s'.mentees1 = s0.mentees1 ∧ s'.mentees2 = s0.mentees2 := by
+  have hmen : s'.mentees1 = s0.mentees1 ∧ s'.mentees2 = s0.mentees2 := by
+    have := processAfterUpdateA_mentees h
+    rw [hs] at this; exact this
   have has : s.as = s0.as.insert id e' := by rw [hs]
   have hbs : s.bs = s0.bs := by rw [hs]
   have hth : s.things = s0.things := by rw [hs]
@@ -421,7 +438,7 @@ theorem processAfterUpdateA_inv {σ : Schema} {s0 s s' : St} {id : Bytes} {ic : 
     obtain ⟨f1, f2, f3, hM⟩ := bossStep hI hk (e1.trans has) (e3.trans hmi) h3
     cases cascadeStep_after h4
     refine ⟨assemble hI hid (f1.trans (e1.trans has)) (f2.trans (e2.trans hbs)) ?_ hM hD,
-      f1.trans (e1.trans has), f2.trans (e2.trans hbs)⟩
+      f1.trans (e1.trans has), f2.trans (e2.trans hbs), hmen.1, hmen.2⟩
     exact ⟨f3 ▸ hT.exact, hT.tgt, f3 ▸ hT.keys⟩
   case false =>
     simp only [hdf, Bool.false_eq_true, if_false, List.foldlM_cons, List.foldlM_nil, bind_ok] at h
@@ -432,12 +449,13 @@ theorem processAfterUpdateA_inv {σ : Schema} {s0 s s' : St} {id : Bytes} {ic : 
     cases cascadeStep_after h3
     obtain ⟨rfl, hD⟩ := depStep hI hk (f1.trans (e1.trans has)) (f2.trans (e2.trans hbs)) h4
     refine ⟨assemble hI hid (f1.trans (e1.trans has)) (f2.trans (e2.trans hbs)) ?_ hM hD,
-      f1.trans (e1.trans has), f2.trans (e2.trans hbs)⟩
+      f1.trans (e1.trans has), f2.trans (e2.trans hbs), hmen.1, hmen.2⟩
     exact ⟨f3 ▸ hT.exact, hT.tgt, f3 ▸ hT.keys⟩
 
 theorem createA_inv {σ : Schema} {s s' : St} {id : Bytes} {e : EntA}
     (hI : Inv σ s) (h : createA σ s id e = .ok s') :
-    Inv σ s' ∧ s'.as = s.as.insert id e ∧ s'.bs = s.bs := by
+    Inv σ s' ∧ s'.as = s.as.insert id e.plain ∧ s'.bs = s.bs ∧ s.as.lookup id = none ∧
+      s'.mentees1 = s.mentees1 ∧ s'.mentees2 = s.mentees2 := by
   unfold createA at h
   split at h
   · cases h
@@ -449,13 +467,15 @@ theorem createA_inv {σ : Schema} {s s' : St} {id : Bytes} {e : EntA}
         cases hl : s.as.lookup id with
         | none => rfl
         | some v => exact absurd ((Map.contains_iff _ _).2 ⟨v, hl⟩) hc
-      exact processAfterUpdateA_inv hI hid (.create rfl hnone rfl rfl rfl) rfl h
+      have := processAfterUpdateA_inv hI hid (.create rfl hnone rfl rfl rfl) rfl h
+      exact ⟨this.1, this.2.1, this.2.2.1, hnone, this.2.2.2⟩
 
 theorem updateA_inv {σ : Schema} {s s' : St} {id : Bytes} {e : EntA} {mo mb md : Bool}
     (hI : Inv σ s) (h : updateA σ s id e mo mb md = .ok s') :
     Inv σ s' ∧ s'.bs = s.bs ∧ ∃ cur, s.as.lookup id = some cur ∧
       s'.as = s.as.insert id { owner := if mo then e.owner else cur.owner, boss := if mb then e.boss else cur.boss,
-                               dep := if md then e.dep else cur.dep, ext := cur.ext } := by
+                               dep := if md then e.dep else cur.dep, ext1 := cur.ext1, ext2 := cur.ext2 } ∧
+      s'.mentees1 = s.mentees1 ∧ s'.mentees2 = s.mentees2 := by
   unfold updateA at h
   split at h
   · cases h
@@ -464,38 +484,124 @@ theorem updateA_inv {σ : Schema} {s s' : St} {id : Bytes} {e : EntA} {mo mb md 
     · cases h
     · next cur hc =>
       have := processAfterUpdateA_inv hI hid (.update cur hc rfl rfl rfl) rfl h
-      exact ⟨this.1, this.2.2, cur, hc, this.2.1⟩
+      exact ⟨this.1, this.2.2.1, cur, hc, this.2.1, this.2.2.2⟩
 
-/-- Create through the child store — also over an existing parent entity, whatever its stored values -/
-theorem createC_inv {σ : Schema} {s s' : St} {id : Bytes} {e : EntA} {tag : FV}
-    (hI : Inv σ s) (h : createC σ s id e tag = .ok s') :
-    Inv σ s' ∧ s'.as = s.as.insert id { owner := e.owner, boss := e.boss, dep := e.dep, ext := some tag } ∧
-      s'.bs = s.bs ∧ id ≠ [] ∧ (∀ cur, s.as.lookup id = some cur → cur.ext = none) := by
+/-! ### writes through a child store: A's constraints, then the child store's own -/
+
+/-- same tables and same A-declared index maps — everything `GInv` speaks about -/
+def GEq (s s' : St) : Prop := s'.as = s.as ∧ s'.bs = s.bs ∧ s'.things = s.things ∧ s'.minions = s.minions
+
+theorem GEq.refl (s : St) : GEq s s := ⟨rfl, rfl, rfl, rfl⟩
+
+theorem GEq.trans {a b c : St} (h1 : GEq a b) (h2 : GEq b c) : GEq a c :=
+  ⟨h2.1.trans h1.1, h2.2.1.trans h1.2.1, h2.2.2.1.trans h1.2.2.1, h2.2.2.2.trans h1.2.2.2⟩
+
+theorem GInv.of_geq {σ : Schema} {P : Bytes → Prop} {s s' : St} (h : GInv σ P s) (e : GEq s s') : GInv σ P s' := by
+  obtain ⟨as', bs', th', mi', m1', m2'⟩ := s'
+  obtain ⟨as, bs, th, mi, m1, m2⟩ := s
+  obtain ⟨a, b, c, d⟩ := e
+  simp only at a b c d
+  subst a b c d
+  exact ⟨h.things, h.minions, h.ownerT, h.bossT, h.depT, h.bossNN, h.depNN, h.thingsK, h.minionsK, h.nonEmpty, h.nonEmptyB⟩
+
+theorem setMentees_geq (s : St) (c : Child) (m : Map (List Bytes)) : GEq s (s.setMentees c m) := by
+  cases c <;> exact ⟨rfl, rfl, rfl, rfl⟩
+
+theorem childIdxStep_geq {σ : Schema} {c : Child} {ic : Bool} {om id : Bytes} {s s' : St}
+    (h : childIdxStep σ c ic om id s = .ok s') : GEq s s' := by
+  unfold childIdxStep at h
+  split at h
+  · split at h
+    · cases h; exact setMentees_geq _ _ _
+    · cases h
+  · cases h; exact GEq.refl _
+
+theorem childFkStep_eq {σ : Schema} {c : Child} {ic : Bool} {og id : Bytes} {s s' : St}
+    (h : childFkStep σ c ic og id s = .ok s') : s' = s := by
+  unfold childFkStep at h
+  split at h
+  · simp only at h
+    split at h
+    · cases h; rfl
+    · split at h
+      · split at h
+        · cases h; rfl
+        · cases h
+      · cases h; rfl
+  · cases h; rfl
+
+theorem childAfterUpdate_geq {σ : Schema} {c : Child} {ic : Bool} {om og id : Bytes} {s s' : St}
+    (h : childAfterUpdate σ c ic om og id s = .ok s') : GEq s s' := by
+  unfold childAfterUpdate at h
+  obtain ⟨s1, h1, h2⟩ := bind_ok.1 h
+  cases childFkStep_eq h2
+  exact childIdxStep_geq h1
+
+theorem childBeforeDelete_geq (σ : Schema) (c : Child) (id : Bytes) (s : St) : GEq s (childBeforeDelete σ c id s) := by
+  unfold childBeforeDelete
+  split
+  · exact setMentees_geq _ _ _
+  · exact GEq.refl _
+
+/-- the entity a create through child store `c` writes: the given parent fields, `x` as `c`'s data, the
+    sibling child store's data (if the parent entity exists) kept -/
+def createdEnt (s : St) (c : Child) (id : Bytes) (e : EntA) (x : Ext) : EntA :=
+  match s.as.lookup id with
+  | none => ({ owner := e.owner, boss := e.boss, dep := e.dep } : EntA).setExt c (some x)
+  | some cur => ({ owner := e.owner, boss := e.boss, dep := e.dep, ext1 := cur.ext1, ext2 := cur.ext2 } : EntA).setExt c (some x)
+
+theorem setExt_fields (e : EntA) (c : Child) (x : Option Ext) :
+    (e.setExt c x).owner = e.owner ∧ (e.setExt c x).boss = e.boss ∧ (e.setExt c x).dep = e.dep ∧
+    (e.setExt c x).extOf c = x := by
+  cases c <;> exact ⟨rfl, rfl, rfl, rfl⟩
+
+/-- Create through a child store — also over an existing parent entity, whatever its stored values.
+    `s1` = the state after A's constraints, before the child store's own. -/
+theorem createC_inv {σ : Schema} {c : Child} {s s' : St} {id : Bytes} {e : EntA} {x : Ext}
+    (hI : Inv σ s) (h : createC σ c s id e x = .ok s') :
+    Inv σ s' ∧ s'.as = s.as.insert id (createdEnt s c id e x) ∧
+      s'.bs = s.bs ∧ id ≠ [] ∧ (∀ cur, s.as.lookup id = some cur → cur.extOf c = none) ∧
+      ∃ s1, s1.as = s'.as ∧ s1.bs = s.bs ∧ s1.mentees1 = s.mentees1 ∧ s1.mentees2 = s.mentees2 ∧
+        childAfterUpdate σ c true [] [] id s1 = .ok s' := by
   unfold createC at h
   split at h
   · cases h
   · next hid =>
-    simp only at h
     split at h
     · next hnone =>
-      have := processAfterUpdateA_inv hI hid (.create rfl hnone rfl rfl rfl) rfl h
-      exact ⟨this.1, this.2.1, this.2.2, hid, fun cur hc => by rw [hnone] at hc; cases hc⟩
+      obtain ⟨s1, h1, h2⟩ := bind_ok.1 h
+      have := processAfterUpdateA_inv hI hid (.create rfl hnone rfl rfl rfl) rfl h1
+      have g := childAfterUpdate_geq h2
+      refine ⟨this.1.of_geq g, ?_, g.2.1.trans this.2.2.1, hid, (fun cur hc => by rw [hnone] at hc; cases hc),
+        s1, g.1.symm, this.2.2.1, this.2.2.2.1, this.2.2.2.2, h2⟩
+      rw [g.1, this.2.1]; simp only [createdEnt, hnone]
     · next cur hc =>
       split at h
       · cases h
       · next hext =>
-        have := processAfterUpdateA_inv hI hid (.update cur hc rfl rfl rfl) rfl h
-        refine ⟨this.1, this.2.1, this.2.2, hid, fun cur' hc' => ?_⟩
-        rw [hc] at hc'; cases hc'
-        cases hx : cur.ext with
-        | none => rfl
-        | some v => simp [hx] at hext
+        obtain ⟨s1, h1, h2⟩ := bind_ok.1 h
+        have := processAfterUpdateA_inv hI hid (.update cur hc rfl rfl rfl) rfl h1
+        have g := childAfterUpdate_geq h2
+        refine ⟨this.1.of_geq g, ?_, g.2.1.trans this.2.2.1, hid, fun cur' hc' => ?_,
+          s1, g.1.symm, this.2.2.1, this.2.2.2.1, this.2.2.2.2, h2⟩
+        · rw [g.1, this.2.1]; simp only [createdEnt, hc]
+        · rw [hc] at hc'; cases hc'
+          cases hx : cur.extOf c with
+          | none => rfl
+          | some v => simp [hx] at hext
 
-theorem updateC_inv {σ : Schema} {s s' : St} {id : Bytes} {e : EntA} {tag : FV} {mo mb md mt : Bool}
-    (hI : Inv σ s) (h : updateC σ s id e tag mo mb md mt = .ok s') :
-    Inv σ s' ∧ s'.bs = s.bs ∧ id ≠ [] ∧ ∃ cur curTag, s.as.lookup id = some cur ∧ cur.ext = some curTag ∧
-      s'.as = s.as.insert id { owner := if mo then e.owner else cur.owner, boss := if mb then e.boss else cur.boss,
-                               dep := if md then e.dep else cur.dep, ext := some (if mt then tag else curTag) } := by
+/-- the entity an update through child store `c` writes -/
+def updatedEnt (cur : EntA) (cx : Ext) (c : Child) (e : EntA) (x : Ext) (mo mb md mt mm mg : Bool) : EntA :=
+  ({ owner := if mo then e.owner else cur.owner, boss := if mb then e.boss else cur.boss,
+     dep := if md then e.dep else cur.dep, ext1 := cur.ext1, ext2 := cur.ext2 } : EntA).setExt c
+    (some { tag := if mt then x.tag else cx.tag, m := if mm then x.m else cx.m, g := if mg then x.g else cx.g })
+
+theorem updateC_inv {σ : Schema} {c : Child} {s s' : St} {id : Bytes} {e : EntA} {x : Ext} {mo mb md mt mm mg : Bool}
+    (hI : Inv σ s) (h : updateC σ c s id e x mo mb md mt mm mg = .ok s') :
+    Inv σ s' ∧ s'.bs = s.bs ∧ id ≠ [] ∧ ∃ cur cx, s.as.lookup id = some cur ∧ cur.extOf c = some cx ∧
+      s'.as = s.as.insert id (updatedEnt cur cx c e x mo mb md mt mm mg) ∧
+      ∃ s1, s1.as = s'.as ∧ s1.bs = s.bs ∧ s1.mentees1 = s.mentees1 ∧ s1.mentees2 = s.mentees2 ∧
+        childAfterUpdate σ c false (evalVal cx.m) (evalVal cx.g) id s1 = .ok s' := by
   unfold updateC at h
   split at h
   · cases h
@@ -505,9 +611,13 @@ theorem updateC_inv {σ : Schema} {s s' : St} {id : Bytes} {e : EntA} {tag : FV}
     · next cur hc =>
       split at h
       · cases h
-      · next curTag hx =>
-        have := processAfterUpdateA_inv hI hid (.update cur hc rfl rfl rfl) rfl h
-        exact ⟨this.1, this.2.2, hid, cur, curTag, hc, hx, this.2.1⟩
+      · next cx hx =>
+        obtain ⟨s1, h1, h2⟩ := bind_ok.1 h
+        have := processAfterUpdateA_inv hI hid (.update cur hc rfl rfl rfl) rfl h1
+        have g := childAfterUpdate_geq h2
+        refine ⟨this.1.of_geq g, g.2.1.trans this.2.2.1, hid, cur, cx, hc, hx, ?_,
+          s1, g.1.symm, this.2.2.1, this.2.2.2.1, this.2.2.2.2, h2⟩
+        rw [g.1, this.2.1]; rfl
 
 theorem createB_inv {σ : Schema} {s s' : St} {id : Bytes}
     (hI : Inv σ s) (h : createB s id = .ok s') : Inv σ s' ∧ s'.as = s.as ∧ s'.bs = s.bs.insert id () := by
@@ -733,13 +843,27 @@ theorem passA_ok {σ : Schema} {del : List Bytes → St → Bytes → Res} {prog
     simp only [beforeDeleteA] at h4; cases h4
     exact ⟨s1, s2, h1, h2, h3⟩
 
-/-- the shape of a successful `DeleteById` on A: one round (no child data) or two (child data), then the
-    entity bucket goes -/
+/-- a successful round: A's pass, then (for a child store's round) that child store's own step -/
+theorem roundA_ok {σ : Schema} {del : List Bytes → St → Bytes → Res} {prog : List Bytes} {id : Bytes} {s s' : St}
+    {r : Option Child} (h : roundA σ del prog id s r = .ok s') :
+    ∃ s3, PassOk del prog id s s3 ∧ passA σ del prog id s = .ok s3 ∧
+      s' = afterRound σ id s3 r := by
+  unfold roundA at h
+  split at h
+  · next s3 h3 => cases h; exact ⟨s3, passA_ok h3, h3, rfl⟩
+  · cases h
+
+theorem roundA_geq {σ : Schema} {s3 : St} {id : Bytes} (r : Option Child) :
+    GEq s3 (afterRound σ id s3 r) := by
+  cases r with
+  | none => exact GEq.refl _
+  | some c => exact childBeforeDelete_geq σ c id s3
+
+/-- the shape of a successful `DeleteById` on A: the rounds, then the entity bucket goes -/
 theorem deleteA_succ_ok {σ : Schema} {n : Nat} {prog : List Bytes} {s s' : St} {id : Bytes}
     (h : deleteA σ (n + 1) prog s id = .ok s') :
-    s.as.contains id = true ∧ ∃ s0 s3,
-      ((hasExt s id = false ∧ s0 = s) ∨ (hasExt s id = true ∧ PassOk (deleteA σ n) prog id s s0)) ∧
-      PassOk (deleteA σ n) prog id s0 s3 ∧
+    s.as.contains id = true ∧ ∃ s3,
+      (roundsOf σ s id).foldlM (roundA σ (deleteA σ n) prog id) s = .ok s3 ∧
       s3.as.contains id = true ∧
       s' = { s3 with as := s3.as.erase id, minions := s3.minions.erase id } := by
   unfold deleteA at h
@@ -747,20 +871,15 @@ theorem deleteA_succ_ok {σ : Schema} {n : Nat} {prog : List Bytes} {s s' : St} 
   · next hc =>
     refine ⟨hc, ?_⟩
     split at h
-    · next s0 h0 =>
+    · next sF hF =>
       split at h
-      · next sF hF =>
-        split at h
-        · next hcF =>
-          cases h
-          refine ⟨s0, sF, ?_, passA_ok hF, hcF, rfl⟩
-          split at h0
-          · next hx => exact Or.inr ⟨hx, passA_ok h0⟩
-          · next hx => cases h0; exact Or.inl ⟨by simpa using hx, rfl⟩
-        · cases h
+      · next hcF => cases h; exact ⟨sF, hF, hcF, rfl⟩
       · cases h
     · cases h
   · cases h
+
+theorem roundsOf_ne_nil (σ : Schema) (s : St) (id : Bytes) : roundsOf σ s id ≠ [] := by
+  unfold roundsOf; simp
 
 theorem mem_mark (prog : List Bytes) (id x : Bytes) : x ∈ mark prog id ↔ x = id ∨ x ∈ prog := by
   unfold mark
@@ -819,8 +938,66 @@ theorem GInv.congr {σ : Schema} {P Q : Bytes → Prop} {s : St} (hpq : ∀ k, P
   ⟨h.things.congr hpq, h.minions.congr hpq, h.ownerT, fun k e he hq => h.bossT k e he (fun hp => hq ((hpq k).1 hp)),
     h.depT, h.bossNN, h.depNN, h.thingsK, h.minionsK, h.nonEmpty, h.nonEmptyB⟩
 
+theorem isReferrer_as {s s' : St} (h : s'.as = s.as) (f : EntA → FV) (id x : Bytes) :
+    isReferrer s' f id x = isReferrer s f id x := by
+  unfold isReferrer; rw [h]
+
+theorem Sub.of_as {s s' : St} (h : s'.as = s.as) : Sub s' s := fun k e he => h ▸ he
+
+/-- all rounds of one delete: from the invariant with `id` live or already pending to the invariant with `id`
+    pending, a sub-table, and — once at least one round has run — no live referrer of `id` -/
+theorem rounds_inv {σ : Schema} {del : List Bytes → St → Bytes → Res} {P : Bytes → Prop} {prog : List Bytes}
+    {s : St} {id : Bytes}
+    (hdel : ∀ (Q : Bytes → Prop), (∀ x ∈ prog, Q x) → ∀ st x st', GInv σ (plus Q id) st →
+      del (mark prog id) st x = .ok st' →
+      GInv σ (plus Q id) st' ∧ Sub st' st ∧ st'.as.lookup x = none ∧ st'.bs = st.bs)
+    (hprog : ∀ x ∈ prog, P x) :
+    ∀ (l : List (Option Child)) (st s' : St), (GInv σ P st ∨ GInv σ (plus P id) st) → Sub st s → st.bs = s.bs →
+      l.foldlM (roundA σ del prog id) st = .ok s' →
+      Sub s' s ∧ s'.bs = s.bs ∧
+      (l ≠ [] → GInv σ (plus P id) s' ∧ ∀ x, isReferrer s' (·.boss) id x = true → P x ∨ x = id) := by
+  intro l
+  induction l with
+  | nil =>
+    intro st s' _ hsub hbs h
+    simp only [List.foldlM_nil, pure, Except.pure] at h
+    cases h
+    exact ⟨hsub, hbs, fun hne => absurd rfl hne⟩
+  | cons r rest ih =>
+    intro st s' hI hsub hbs h
+    simp only [List.foldlM_cons, bind_ok] at h
+    obtain ⟨st1, h1, h2⟩ := h
+    obtain ⟨s3, hp, _, rfl⟩ := roundA_ok h1
+    have hprog2 : ∀ x ∈ prog, plus P id x := fun x hx => Or.inl (hprog x hx)
+    have h3 : GInv σ (plus P id) s3 ∧ Sub s3 st ∧ s3.bs = st.bs ∧
+        (∀ x, isReferrer s3 (·.boss) id x = true → P x ∨ x = id) := by
+      rcases hI with hI | hI
+      · exact pass_inv (hdel P hprog) hI hprog hp
+      · obtain ⟨a, b, c, d⟩ := pass_inv (hdel (plus P id) hprog2) hI hprog2 hp
+        refine ⟨a.congr (plus_plus P id), b, c, ?_⟩
+        intro x hr
+        rcases d x hr with (h1 | h1) | h1
+        · exact Or.inl h1
+        · exact Or.inr h1
+        · exact Or.inr h1
+    obtain ⟨hI3, hsub3, hbs3, hno3⟩ := h3
+    have g := roundA_geq (σ := σ) (s3 := s3) (id := id) r
+    have hI1 := hI3.of_geq g
+    have hsub1 : Sub (afterRound σ id s3 r) s :=
+      (Sub.of_as g.1).trans (hsub3.trans hsub)
+    have hbs1 := g.2.1.trans (hbs3.trans hbs)
+    obtain ⟨a, b, c⟩ := ih _ s' (Or.inr hI1) hsub1 hbs1 h2
+    refine ⟨a, b, fun _ => ?_⟩
+    by_cases hrest : rest = []
+    · subst hrest
+      simp only [List.foldlM_nil, pure, Except.pure] at h2
+      cases h2
+      refine ⟨hI1, fun x hr => hno3 x ?_⟩
+      rw [← isReferrer_as g.1]; exact hr
+    · exact c hrest
+
 /-- **DeleteById on A preserves the (generalised) invariant**, removes its argument, and only shrinks the
-    table — with one round or two.  `prog` (in progress) ⊆ `P` (pending). -/
+    table — with one round or several.  `prog` (in progress) ⊆ `P` (pending). -/
 theorem deleteA_inv (σ : Schema) : ∀ (n : Nat) (P : Bytes → Prop) (prog : List Bytes) (s : St) (id : Bytes) (s' : St),
     GInv σ P s → (∀ x ∈ prog, P x) → deleteA σ n prog s id = .ok s' →
     GInv σ P s' ∧ Sub s' s ∧ s'.as.lookup id = none ∧ s'.bs = s.bs := by
@@ -829,7 +1006,7 @@ theorem deleteA_inv (σ : Schema) : ∀ (n : Nat) (P : Bytes → Prop) (prog : L
   | zero => intro P prog s id s' _ _ h; simp [deleteA] at h
   | succ n ih =>
     intro P prog s id s' hI hprog h
-    obtain ⟨hc, s0, s3, h0, hp, hc3, rfl⟩ := deleteA_succ_ok h
+    obtain ⟨hc, s3, hF, hc3, rfl⟩ := deleteA_succ_ok h
     have hprog' : ∀ (Q : Bytes → Prop), (∀ x ∈ prog, Q x) → ∀ x ∈ mark prog id, plus Q id x := by
       intro Q hQ x hx
       rcases (mem_mark prog id x).1 hx with rfl | hx'
@@ -839,21 +1016,8 @@ theorem deleteA_inv (σ : Schema) : ∀ (n : Nat) (P : Bytes → Prop) (prog : L
         deleteA σ n (mark prog id) st x = .ok st' →
         GInv σ (plus Q id) st' ∧ Sub st' st ∧ st'.as.lookup x = none ∧ st'.bs = st.bs :=
       fun Q hQ st x st' a b => ih (plus Q id) (mark prog id) st x st' a (hprog' Q hQ) b
-    -- after the round(s): the invariant with `id` pending, a sub-table, no live referrer of `id`
-    have hfin : GInv σ (plus P id) s3 ∧ Sub s3 s ∧ s3.bs = s.bs ∧
-        (∀ x, isReferrer s3 (·.boss) id x = true → P x ∨ x = id) := by
-      rcases h0 with ⟨_, rfl⟩ | ⟨_, hp0⟩
-      · exact pass_inv (hdel P hprog) hI hprog hp
-      · obtain ⟨hI0, hsub0, hbs0, _⟩ := pass_inv (hdel P hprog) hI hprog hp0
-        have hprog2 : ∀ x ∈ prog, plus P id x := fun x hx => Or.inl (hprog x hx)
-        obtain ⟨hI3, hsub3, hbs3, hno3⟩ := pass_inv (hdel (plus P id) hprog2) hI0 hprog2 hp
-        refine ⟨hI3.congr (plus_plus P id), hsub3.trans hsub0, hbs3.trans hbs0, ?_⟩
-        intro x hr
-        rcases hno3 x hr with (h1 | h1) | h1
-        · exact Or.inl h1
-        · exact Or.inr h1
-        · exact Or.inr h1
-    obtain ⟨hI3, hsub3, hbs3, hno⟩ := hfin
+    obtain ⟨hsub3, hbs3, hfin⟩ := rounds_inv hdel hprog _ s s3 (Or.inl hI) (Sub.refl s) rfl hF
+    obtain ⟨hI3, hno⟩ := hfin (roundsOf_ne_nil σ s id)
     refine ⟨erase_inv hI3 hno hc3, ?_, by simp, hbs3⟩
     intro k e he
     simp only [Map.lookup_erase] at he
@@ -935,13 +1099,42 @@ theorem eraseB_inv {σ : Schema} {s : St} {id : Bytes} (hI : Inv σ s)
     · simp [h]
     · simp only [h, if_false]; exact hI.nonEmptyB
 
-/-- the shape of a successful `DeleteById` on B, whatever the constraint order: an intermediate
-    state `s2` that satisfies the invariant, is a sub-table of `s`, and in which nothing refers to `id` -/
+/-- B's constraints registered for A's fks, whatever their order: an intermediate state `s2` that
+    satisfies the invariant, is a sub-table of `s`, and in which nothing refers to `id` through A's fks -/
+theorem deleteB_fold_ok {σ : Schema} {s sF : St} {id : Bytes} (hI : Inv σ s)
+    (hF : (orderB σ).foldlM (beforeDeleteB σ (deleteA σ (fuelOf s) []) id) s = .ok sF) :
+    Inv σ sF ∧ Sub sF s ∧ sF.bs = s.bs ∧
+      (∀ k e, sF.as.lookup k = some e → evalVal e.owner ≠ [] → evalVal e.owner ≠ id) ∧
+      (∀ x, isReferrer sF (·.dep) id x = false) := by
+  unfold orderB at hF
+  cases hdf : σ.depFirst
+  case true =>
+    simp only [hdf, if_true, List.foldlM_cons, List.foldlM_nil, bind_ok] at hF
+    obtain ⟨s1, h1, s2, h2, h3⟩ := hF
+    have e3 : s2 = sF := by cases h3; rfl
+    subst e3
+    obtain ⟨a, b, c, d⟩ := depCascadeStep hI h1
+    obtain ⟨rfl, hown⟩ := restrictStep a h2
+    exact ⟨a, b, c, hown, d⟩
+  case false =>
+    simp only [hdf, Bool.false_eq_true, if_false, List.foldlM_cons, List.foldlM_nil, bind_ok] at hF
+    obtain ⟨s1, h1, s2, h2, h3⟩ := hF
+    have e3 : s2 = sF := by cases h3; rfl
+    subst e3
+    obtain ⟨rfl, hown⟩ := restrictStep hI h1
+    obtain ⟨a, b, c, d⟩ := depCascadeStep hI h2
+    exact ⟨a, b, c, fun k e he => hown k e (b k e he), d⟩
+
+/-- the shape of a successful `DeleteById` on B: the state `s2` after A's constraints, the restrict checks
+    of the child-declared fks passed on `s2`, then the entity bucket (with its back-reference buckets) goes -/
 theorem deleteB_succ_ok {σ : Schema} {s s' : St} {id : Bytes} (hI : Inv σ s) (h : deleteB σ s id = .ok s') :
     s.bs.contains id = true ∧ ∃ s2, Inv σ s2 ∧ Sub s2 s ∧ s2.bs = s.bs ∧
       (∀ k e, s2.as.lookup k = some e → evalVal e.owner ≠ [] → evalVal e.owner ≠ id) ∧
       (∀ x, isReferrer s2 (·.dep) id x = false) ∧
-      s' = { s2 with bs := s2.bs.erase id, things := s2.things.erase id } := by
+      (orderB σ).foldlM (beforeDeleteB σ (deleteA σ (fuelOf s) []) id) s = .ok s2 ∧
+      childRestrict σ s2 id .c1 = false ∧ childRestrict σ s2 id .c2 = false ∧
+      s' = { s2 with bs := s2.bs.erase id, things := s2.things.erase id,
+                     mentees1 := s2.mentees1.erase id, mentees2 := s2.mentees2.erase id } := by
   unfold deleteB at h
   split at h
   · next hc =>
@@ -950,32 +1143,21 @@ theorem deleteB_succ_ok {σ : Schema} {s s' : St} {id : Bytes} (hI : Inv σ s) (
     · next sF hF =>
       split at h
       · cases h
-        unfold orderB at hF
-        cases hdf : σ.depFirst
-        case true =>
-          simp only [hdf, if_true, List.foldlM_cons, List.foldlM_nil, bind_ok] at hF
-          obtain ⟨s1, h1, s2, h2, h3⟩ := hF
-          have e3 : s2 = sF := by cases h3; rfl
-          subst e3
-          obtain ⟨a, b, c, d⟩ := depCascadeStep hI h1
-          obtain ⟨rfl, hown⟩ := restrictStep a h2
-          exact ⟨s2, a, b, c, hown, d, rfl⟩
-        case false =>
-          simp only [hdf, Bool.false_eq_true, if_false, List.foldlM_cons, List.foldlM_nil, bind_ok] at hF
-          obtain ⟨s1, h1, s2, h2, h3⟩ := hF
-          have e3 : s2 = sF := by cases h3; rfl
-          subst e3
-          obtain ⟨rfl, hown⟩ := restrictStep hI h1
-          obtain ⟨a, b, c, d⟩ := depCascadeStep hI h2
-          exact ⟨s2, a, b, c, fun k e he => hown k e (b k e he), d, rfl⟩
-      · cases h
+      · next hcr =>
+        split at h
+        · cases h
+          obtain ⟨a, b, c, d, e⟩ := deleteB_fold_ok hI hF
+          have hcr' : childRestrict σ sF id .c1 = false ∧ childRestrict σ sF id .c2 = false := by
+            cases h1 : childRestrict σ sF id .c1 <;> cases h2 : childRestrict σ sF id .c2 <;> simp [h1, h2] at hcr ⊢
+          exact ⟨sF, a, b, c, d, e, hF, hcr'.1, hcr'.2, rfl⟩
+        · cases h
     · cases h
   · cases h
 
 theorem deleteB_inv {σ : Schema} {s s' : St} {id : Bytes} (hI : Inv σ s) (h : deleteB σ s id = .ok s') :
     Inv σ s' ∧ Sub s' s ∧ s'.bs = s.bs.erase id := by
-  obtain ⟨_, s2, a, b, c, hown, hdep, rfl⟩ := deleteB_succ_ok hI h
-  exact ⟨eraseB_inv a hown hdep, b, by rw [← c]⟩
+  obtain ⟨_, s2, a, b, c, hown, hdep, _, _, _, rfl⟩ := deleteB_succ_ok hI h
+  exact ⟨(eraseB_inv a hown hdep).of_geq ⟨rfl, rfl, rfl, rfl⟩, b, by rw [← c]⟩
 
 /-! ### every operation, every transaction, every history -/
 
@@ -992,8 +1174,8 @@ theorem apply_inv {σ : Schema} {s s' : St} (op : Op) (hI : Inv σ s) (h : apply
   | updateA id e mo mb md => exact (updateA_inv hI h).1
   | deleteA id => exact (deleteA_inv σ _ none' [] s id s' hI (fun _ h => by cases h) h).1
   | deleteB id => exact (deleteB_inv hI h).1
-  | createC id e tag => exact (createC_inv hI h).1
-  | updateC id e tag mo mb md mt => exact (updateC_inv hI h).1
+  | createC c id e x => exact (createC_inv hI h).1
+  | updateC c id e x mo mb md mt mm mg => exact (updateC_inv hI h).1
   | deleteC id => exact (deleteA_inv σ _ none' [] s id s' hI (fun _ h => by cases h) h).1
 
 theorem runTxFrom_inv {σ : Schema} {s0 : St} (h0 : Inv σ s0) :
